@@ -35,6 +35,7 @@ class Session:
         self.els = {r: o for r, o in self.U.objs.items() if r[0] in "lod"}
         # model: has the element been (re-)initialised since it was last stepped?
         self.inited_since = {r: False for r in self.els}
+        self.stepped_once = set()
         self.ever_stepped = False
         self.keep = []  # keeps every observed object alive so that identities are never recycled
         self.obs = {r: self.observe(o) for r, o in self.els.items()}
@@ -77,6 +78,7 @@ class Session:
             self.inited_since[r] = True
         for r in stepped:
             self.inited_since[r] = False
+            self.stepped_once.add(r)
         if stepped:
             self.ever_stepped = True
         return len(stepped)
@@ -95,10 +97,10 @@ class Session:
                 if decl[g] and getattr(el, g) is None:
                     out.append(("uninitialised", r))
             if decl["states"]:
-                if el.next_states is None:
-                    out.append(("unstepped", r))
-                elif self.inited_since[r]:
+                if self.inited_since[r] and r in self.stepped_once:
                     out.append(("reinitialised-after-step", r))
+                elif el.next_states is None or self.inited_since[r]:
+                    out.append(("unstepped", r))
         return out
 
     # -- operations ---------------------------------------------------------------------------
@@ -154,7 +156,9 @@ class Session:
         except Exception as e:
             outcome = "raised:" + type(e).__name__
             self.res.probes["step_" + outcome] += 1
-        self.update_model("step", outcome)
+        n_stepped = self.update_model("step", outcome)
+        if outcome == "interrupted":  # phase by observation, not by names of library functions
+            self.res.probes["interrupt_phase:" + ("dynamics" if n_stepped else "initialisation")] += 1
         self.clean = op if outcome == "ok" else None
         if outcome == "ok":
             self.torn = False
@@ -470,6 +474,8 @@ def generate(prop: str, run_seed: int, tier: str = "quick") -> dict:
         return op
 
     n = rng.randint(4, 11) if tier == "quick" else rng.randint(6, 18)
+    if rng.random() < 0.04:
+        n = rng.randint(20, 32)  # swarm: now and then a long history
     if rng.random() < 0.3:
         ops.append(compile_op())  # never initialised
     for _ in range(n):
@@ -522,8 +528,8 @@ TIERS = {
         "thorough": {"runs": 120000, "selftest": 48, "chunk": 400, "wall_cap": 3300, "run_timeout": 120,
                      "expect_probes": ["interrupt", "add_after_step", "compile_returned", "compile_returned_clean_twin_equal",
                                        "compile_raised_expected:uninitialised", "compile_raised_expected:unstepped",
-                                       "compile_raised_expected:reinitialised-after-step", "interrupt_in:init",
-                                       "interrupt_in:step", "interrupt_in:step_dynamics"]},
+                                       "compile_raised_expected:reinitialised-after-step", "interrupt_phase:initialisation",
+                                       "interrupt_phase:dynamics"]},
     }
 }
 RULES = {
